@@ -272,10 +272,21 @@ func vp8Warm(p *codecs.VP8Payloader, warm int) {
 func vp8RtCase(x *Ctx, mk func(c *Case) (enable bool, warm int, calls []PayCall)) {
 	x.Case(func(c *Case) {
 		enable, warm, calls := mk(c)
-		c.I.Bool(enable).Nat(warm)
+		// EnablePictureID is a public field: in a third of the histories that have earlier frames the
+		// first flipAt of them were sent with the field at the OTHER value and the caller then set it
+		// by hand (simulcast layers switched on and off).  The running picture id counts frames, in
+		// whichever mode they were sent.
+		flipAt := 0
+		if warm > 0 && c.R.Chance(1, 3) {
+			flipAt = c.R.Pick(1, warm, c.R.Range(1, warm))
+			c.Tag("EnablePictureID-set-by-hand")
+		}
+		c.I.Bool(enable).Nat(warm).Nat(flipAt)
 		writeCalls(&c.I, calls)
-		pay := &codecs.VP8Payloader{EnablePictureID: enable}
-		vp8Warm(pay, warm)
+		pay := &codecs.VP8Payloader{EnablePictureID: enable != (flipAt > 0)}
+		vp8Warm(pay, flipAt)
+		pay.EnablePictureID = enable
+		vp8Warm(pay, warm-flipAt)
 		rcv := &codecs.VP8Packet{}
 		// the same packets also go to ONE receiver with SetZeroAllocation(true): losslessness is
 		// evaluated on what it returns as well
